@@ -98,6 +98,7 @@ type Exec struct {
 	gor        *sched
 	xidCtr     int
 	abortStack string
+	kvs        *kvState
 	wg         map[string]int
 }
 
@@ -1275,6 +1276,11 @@ func (ex *Exec) builtin(b *ssa.Builtin, args []Value) Value {
 		return Iface{}
 	case "print", "println":
 		return nil
+	case "ssa:wrapnilchk":
+		if p, ok := args[0].(Ptr); ok && p.obj == nil {
+			panic(&goPanic{msg: "value method called using nil pointer"})
+		}
+		return args[0]
 	case "min", "max":
 		r := args[0].(*Term)
 		for _, a := range args[1:] {
